@@ -326,6 +326,7 @@ func CalculateRewards(
 		// Normalize share
 		normalizedShare := rawShare / totalShare
 		totalPoolRewards := uint64(float64(pots.Rewards) * normalizedShare)
+		verifRewardsTrace("pool-raw", poolID[:], totalPoolRewards)
 		// float64 rounding can push a share (or the running sum) above the
 		// pot; never hand out more than what is left in it, so that the
 		// adjustment below is a non-negative remainder and cannot wrap
@@ -362,6 +363,7 @@ func CalculateRewards(
 		if delegatorStake == nil {
 			delegatorStake = make(map[AddrKeyHash]uint64)
 		}
+		verifRewardsTrace("pool-dist", poolID[:], totalPoolRewards)
 
 		poolRewards := distributePoolRewards(
 			poolID,
@@ -472,6 +474,7 @@ func distributePoolRewards(
 				totalPoolRewards-poolCost,
 			) * (margin + (1.0-margin)*ownerStakeRatio),
 		)
+		verifRewardsTrace("op-raw", nil, operatorShare)
 		// float64 rounding (or a margin above 1) must not give the operator
 		// more than the pool has left after its cost
 		if operatorShare > totalPoolRewards-poolCost {
@@ -503,6 +506,7 @@ func distributePoolRewards(
 						stakeholderRewardsTotal,
 					),
 				)
+				verifRewardsTrace("deleg-raw", stakeKey[:], reward)
 				// float64 rounding must not assign more than is left
 				if reward > stakeholderRewardsTotal-assigned {
 					reward = stakeholderRewardsTotal - assigned
